@@ -44,6 +44,18 @@ type Label struct {
 	I  int    `json:"i,omitempty"`
 	R  int    `json:"r,omitempty"`
 	X  string `json:"x,omitempty"`
+	E  *Exp   `json:"e,omitempty"` // abstract state the specification expects after this step (replay only)
+}
+
+// Exp is the digest of the specification's state after a step, compared with
+// the projection of the real state when a TLC-generated behaviour is replayed.
+type Exp struct {
+	Ex   bool   `json:"ex"`
+	Fin  bool   `json:"fin"`
+	Res  string `json:"res"`
+	Pods int    `json:"pods"`
+	Refs int    `json:"refs"`
+	Dl   int    `json:"dl"`
 }
 
 // ---- projection ----
